@@ -114,6 +114,11 @@ func c12ModuleRun(env world.Env, amount int64, denomMode int, D time.Duration, n
 	if equal {
 		nGauges = -nGauges
 	}
+	stagger := nGauges >= 100 // 100+n: after the first reward block n further gauges are opened that END together with the first
+	late := 0
+	if stagger {
+		late, nGauges = nGauges-100, 1
+	}
 	w := env.W()
 	k := w.App.StorageKeeper
 	ctx := env.Ctx()
@@ -173,6 +178,18 @@ func c12ModuleRun(env world.Env, amount int64, denomMode int, D time.Duration, n
 		}
 		if gaugesBefore.GT(gaugesAfter) {
 			cr.Nontrivial = true
+		}
+		if stagger && late > 0 && pts[pi].Before(start.Add(D)) {
+			for i := 0; i < late; i++ { // opened now, ending with the first gauge: same end, later start
+				coins := sdk.NewCoins(sdk.NewInt64Coin("ujkl", amount*2+int64(i)+1))
+				pg := k.NewGauge(bctx, coins, start.Add(D))
+				acc, _ := storagetypes.GetGaugeAccount(pg)
+				if err := w.App.BankKeeper.SendCoins(bctx, w.A("F").Addr, acc, coins); err != nil {
+					panic(err)
+				}
+				gs = append(gs, c12Track(acc, pts[pi], start.Add(D), coins))
+			}
+			late = 0
 		}
 	}
 	return cr
@@ -286,7 +303,7 @@ func c12EnumModule(thorough bool) mc.Enum {
 	for _, amt := range amounts {
 		for _, D := range durs {
 			for _, two := range []int{0, 1, 2} {
-				for _, n := range []int{1, 3, -2, -3} {
+				for _, n := range []int{1, 3, -2, -3, 101, 102} {
 					amt, D, two, n := amt, D, two, n
 					e.Cases = append(e.Cases, mc.Case{Desc: fmt.Sprintf("module|amount=%d|D=%s|denoms=%d|gauges=%d|%d sequences of <=%d reward times", amt, D, two, n, len(seqs), maxLen), Run: func(env world.Env) mc.CaseResult {
 						out := mc.CaseResult{Class: "module"}
@@ -341,7 +358,7 @@ func init() {
 	CaseReplayers["C12/gauges-module"] = func(r *mc.Run, c string) { r.ReplayCase(c12EnumModule(true), c) }
 	CaseReplayers["C12/gauges-app"] = func(r *mc.Run, c string) { r.ReplayCase(c12EnumApp(true), c) }
 	Props["C12"] = Prop{Level: "exploration", Run: func(r *mc.Run, tier string) {
-		r.Rules = append(r.Rules, "gauge amounts {1,2,3,7,10,999,1000003,1e15} x one/two denominations x durations {1d,30d,365d} x 1 or 3 concurrent gauges x every weakly increasing sequence of <=3 (thorough 4) reward-block times from {start,start+1us,D/7,D/3,D/2,D-1us,D,D+1us,2D} through the storage BeginBlocker; plus gauges created by real BuyStorage transactions (one buyer, two buyers, two buyers with identical parameters in the same block) run through the whole application at both seams, with and without a restart of the storage module from its own exported genesis after the purchases. Non-trivial = a reward block released something")
+		r.Rules = append(r.Rules, "gauge amounts {1,2,3,7,10,999,1000003,1e15} x one/two denominations x durations {1d,30d,365d} x 1 or 3 concurrent gauges (also 2-3 identical ones, and gauges opened later that end together with the first) x every weakly increasing sequence of <=3 (thorough 4) reward-block times from {start,start+1us,D/7,D/3,D/2,D-1us,D,D+1us,2D} through the storage BeginBlocker; plus gauges created by real BuyStorage transactions (one buyer, two buyers, two buyers with identical parameters in the same block) run through the whole application at both seams, with and without a restart of the storage module from its own exported genesis after the purchases. Non-trivial = a reward block released something")
 		r.Assumptions = append(r.Assumptions, "whether the unreleased remainder is paid after the end is unspecified (only 'nothing is released outside the interval' is enforced)", "tolerance one base unit per denomination")
 		r.AddEnum(c12EnumModule(tier == "thorough"), workers(), time.Time{})
 		r.AddEnum(c12EnumApp(tier == "thorough"), workers(), time.Time{})
